@@ -217,6 +217,25 @@ def pg (fn : String) (a : List String) : Option String := do
     | .error (.err _ none) => some "err ?"
     | .error .unmodelled => some "unmodelled"
     | .error .fuel => some "unmodelled"
+  | "pg.e2epos", [pkg, infos, nested, names, types, _] =>
+    -- the same header through the REAL GenProto (NameCellPos of the rejection, decoded to a column index); headers that
+    -- name predefined types are skipped (the run has no such types)
+    let ts ← decRow? types
+    if ts.any (fun t => t.contains 46) then some "skip" else
+    let c : Ctx := ⟨← decStr? pkg, ← decInfos? infos, ← decBool? nested⟩
+    match parseSheet c (Header.ofRows (← decRow? names) ts) with
+    | .ok _ => some "ok"
+    | .error (.err _ (some cur)) => some s!"err {cur}"
+    | .error (.err _ none) => some "err ?"
+    | .error .unmodelled => some "unmodelled"
+    | .error .fuel => some "unmodelled"
+  | "o.pg.e2epos", [_, _, _, _, _, k, obs] =>
+    let k ← k.toNat?
+    if obs == "skip" then some "unspec" else
+    if obs == "ok" then some (Spec.C07.holdsHeaderPos k none).toString else
+    match obs.splitOn " " with
+    | ["err", c] => some (Spec.C07.holdsHeaderPos k (some (← c.toNat?))).toString
+    | _ => some "FAILS"
   | "o.pg.errpos", [_, _, _, _, _, k, obs] =>
     let k ← k.toNat?
     if obs == "ok" then some (Spec.C07.holdsHeaderPos k none).toString else
@@ -276,6 +295,8 @@ def pg (fn : String) (a : List String) : Option String := do
   | "o.c08.twin", args => some (if (args.getLast?.getD "").startsWith "same" then "holds" else "FAILS")
   | "o.c08.known", args => some (if (args.getLast?.getD "").startsWith "same" then "holds" else "FAILS")
   | "c17.fuzz", [_] => some "returned"          -- the models are total functions: every input yields a result or an error
+  | "c17.cross", _ => some "returned"
+  | "o.c17.cross", args => some (if args.getLast? == some "returned" then "holds" else "FAILS")
   | "c03.reject", _ => some "rejected"     -- C03: a cell that is no literal of its column's type fails the worksheet
   | "o.c03.reject", args =>
     let obs := args.getLast?.getD ""
